@@ -221,6 +221,13 @@ func (c *fnCtx) frameObls(ri int, r retInfo) {
 	if allowed.Top {
 		return
 	}
+	if r.st.epoch != c.entry.epoch {
+		// some path to this return went through a call with unknown effects (whole heap havocked): the written
+		// modifies clause cannot be established key by key
+		o := &Obl{Class: "frame", Fn: c.fnName(), Pos: c.eng.prog.Fset.Position(r.pos), Text: "writes stay inside the modifies clause (a call with unknown effects is on the path)", Guard: r.reach, Cond: "false"}
+		o.Name = fmt.Sprintf("%s#frame:unknown-effects/%s", o.Fn, c.retLabel(ri))
+		c.obls = append(c.obls, o)
+	}
 	var keys []string
 	for k := range r.st.m {
 		keys = append(keys, k)
